@@ -51,6 +51,13 @@ def correspondence(ctx):
         b0 = K.Block(txs, time=1231006505)
         b1 = K.Block([GH.coinbase(1, [(5, pool[1])]), K.Tx([(txs[1].txid(), 0, b"", 1), (txs[2].txid(), 17, b"", 1)], [(9, pool[2])])], time=1231007000)
         add(GH.link([b0, b1]), coin, "fan-%d" % nout)
+    # chains that begin with the coin's REAL genesis block: the key of its pay-to-pubkey output is an address like any other (and
+    # may own further outputs, here a second pay-to-pubkey output of the same key)
+    from .. import genesis
+    for k, (coin, g) in enumerate(sorted(genesis.candidates().items()) * (1 if not ctx.thorough() else 4)):
+        hist = GH.random_history(r, coin, r.randrange(1, 5))
+        hist[-1].txs[0].outs = list(hist[-1].txs[0].outs) + [(1 * 10**8, g.txs[0].outs[0][1])]
+        add(GH.link([g] + hist), coin, "real-genesis-%s-%d" % (coin, k))
     for k in range(ctx.n(6, 30)):
         coin = ["bitcoin", "litecoin", "dogecoin"][k % 3]
         base = GC.rb(r, 19)
